@@ -365,7 +365,7 @@ fn case(r: &mut Rng, max_threads: usize, ncalls: usize, res: &mut CaseResult) {
 
 pub fn run(rc: &mut RunCtx) {
     let seed = rc.seed;
-    let n = rc.n(300, 6000);
+    let n = rc.n(600, 8000);
     for i in 0..n {
         let id = format!("calls:{}", i);
         if !rc.mine(&id) {
